@@ -74,6 +74,7 @@ pub struct Knobs {
     pub w_cancel: u32,
     pub w_fork: u32,
     pub w_budget: u32,
+    pub w_race: u32,
     // message handler content
     pub h_steps: u32, // permille of messages that carry steps
     pub h_yield: u32,
@@ -134,6 +135,7 @@ impl Knobs {
             w_cancel: 3,
             w_fork: 1,
             w_budget: 1,
+            w_race: 2,
             h_steps: 400,
             h_yield: 30,
             h_sleep: 30,
@@ -231,7 +233,7 @@ fn gen_msg(g: &mut G, k: &Knobs, actor: usize, n_actors: usize, depth: u32, join
                             subs.push(Op::Sleep(g.pick(&k.sleeps)));
                         }
                     }
-                    steps.push(Op::Join(subs));
+                    steps.push(if g.chance(350) { Op::Race(subs) } else { Op::Join(subs) });
                 }
                 _ => steps.push(Op::Yield(1)),
             }
@@ -328,7 +330,7 @@ fn gen_client_op(g: &mut G, k: &Knobs, c: usize, n_actors: usize, own: &mut Vec<
     };
     let w = [
         k.w_tell, k.w_ask, k.w_tellt, k.w_askt, k.w_askjoin, k.w_stop, k.w_kill, k.w_clone, k.w_drop, k.w_weak, k.w_erase, k.w_alive, k.w_ident, k.w_metrics, k.w_sleep, k.w_yield, k.w_cancel,
-        k.w_fork, k.w_budget,
+        k.w_fork, k.w_budget, k.w_race,
     ];
     match g.weighted(&w) {
         0 => Op::Tell { h, m: gen_msg(g, k, a, n_actors, 0, false) },
@@ -412,6 +414,24 @@ fn gen_client_op(g: &mut G, k: &Knobs, c: usize, n_actors: usize, own: &mut Vec<
             Op::Fork { id, ops }
         }
         18 => Op::BurnBudget,
+        19 if depth == 0 => {
+            // select!-style race (or join!) of a few calls from one client task
+            let mut subs = Vec::new();
+            for _ in 0..g.range(2, 3) {
+                subs.push(match g.below(5) {
+                    0 => Op::Tell { h, m: gen_msg(g, k, a, n_actors, 0, false) },
+                    1 => Op::Ask { h, m: gen_msg(g, k, a, n_actors, 0, false) },
+                    2 => Op::AskT { h, m: gen_msg(g, k, a, n_actors, 0, false), ms: g.pick(&k.timeouts) },
+                    3 => Op::TellT { h, m: gen_msg(g, k, a, n_actors, 0, false), ms: g.pick(&k.timeouts) },
+                    _ => Op::Sleep(g.pick(&k.sleeps)),
+                });
+            }
+            if g.chance(600) {
+                Op::Race(subs)
+            } else {
+                Op::Join(subs)
+            }
+        }
         _ => Op::Yield(1),
     }
 }
